@@ -80,10 +80,15 @@ type rwlocker interface {
 
 // rwspinlock is the same as a RWLock, but uses spinlocks instead of mutexes.
 type rwspinlock struct {
-	state atomic.Int32
+	state   atomic.Int32
+	waiting atomic.Int32 // writers spinning in Lock
 }
 
 func (l *rwspinlock) Lock() {
+	// New readers stand back while a writer waits. Readers that overlap would
+	// otherwise never let the state reach zero.
+	l.waiting.Add(1)
+	defer l.waiting.Add(-1)
 	for {
 		state := l.state.Load()
 		if state == 0 && l.state.CompareAndSwap(state, -1) {
@@ -104,7 +109,8 @@ func (l *rwspinlock) Unlock() {
 func (l *rwspinlock) RLock() {
 	for {
 		state := l.state.Load()
-		if state >= 0 && l.state.CompareAndSwap(state, state+1) {
+		if state >= 0 && l.waiting.Load() == 0 &&
+			l.state.CompareAndSwap(state, state+1) {
 			return
 		}
 		runtime.Gosched()
